@@ -127,7 +127,9 @@ def u_and_f_signature(ctx: Ctx):
     """The signature of u_and_f and how the closures consume it (SIG1, D9 regression)."""
     prog = ctx.prog
     fr = prog.frame(UF)
-    cids = sorted(c for cs in fr.closures.values() for c in cs)
+    from lcmsa.match import product_closures
+
+    cids = product_closures(prog, fr)
     need(len(cids) == 2, "u_and_f closures not found")
     sigs = []
     for t in fr.env.values():
